@@ -68,6 +68,34 @@ func bp(b bool) *bool { return &b }
 func runC14(c *Ctx) {
 	r := c.R
 	n := c.N(60, 2000)
+	// mappings around the 65,535-byte limit: accepted ones must validate and round-trip,
+	// over-limit ones must be rejected (not wrapped)
+	for total := 65500; total <= 66070; total += 1 + r.Intn(5) {
+		kvs := boundaryMap(r, total)
+		gm := map[string]string{}
+		real := 0
+		for _, kv := range kvs {
+			gm[string(kv.K)] = string(kv.V)
+		}
+		for k, v := range gm {
+			real += 4 + len(k) + len(v)
+		}
+		mp, err := data.GoMapToMapping(gm)
+		b := built{ctorOK: err == nil, reparse: func(b []byte) (bool, []byte, []byte) {
+			x, rem, errs := data.ReadMapping(b)
+			return len(errs) == 0, rem, x.Data()
+		}}
+		if err == nil {
+			b.validOK = mp.Validate() == nil
+			b.bytes, b.bytesOK = mp.Data(), true
+		}
+		c14Chain(c, "GoMapToMapping(limit)", i64(int64(real)), b, "")
+		if real > 65535 {
+			c14Defect(c, "GoMapToMapping", fmt.Sprintf("mapping of %d bytes (limit 65535)", real), err != nil, nil, "")
+		} else {
+			c.Check("valid_arguments_accepted", err == nil, "GoMapToMapping(limit)", [][]byte{i64(int64(real))}, "", fmt.Sprintf("%d-byte mapping rejected", real))
+		}
+	}
 	for i := 0; i < n; i++ {
 		// ---------- KeysAndCert / Destination / RouterIdentity
 		s := libSigSupported[r.Intn(len(libSigSupported))]
